@@ -121,8 +121,15 @@ def run(c):
     cases, meta = [], {}
     cid = 0
 
+    # the no-progress bound is stated for inputs up to 64 KiB (several scanners are quadratic in the input length:
+    # slow on half a megabyte, but terminating); longer mutants are cut
+    cap = 65536 if c.quick else 131072
+
     def add(name, op, fields, kind, doc):
         nonlocal cid
+        if len(doc) > cap:
+            doc = doc[:cap]
+            fields = [f[:cap] if isinstance(f, (bytes, bytearray)) else f for f in fields]
         cid += 1
         k = "c%d" % cid
         cs = core.Case(k, op, fields, {"entry": name, "kind": kind})
@@ -148,6 +155,9 @@ def run(c):
         for kind, m in mutate.truncations(d0, cap=None if len(d0) < 600 else 400):
             add(name, op, mk(m), kind, m)
         add(name, op, mk(b""), "empty", b"")
+        for d in docs[:4]:
+            for kind, m in mutate.numeric_cross(d):
+                add(name, op, mk(m), kind, m)
         for depth in (10, 100, 1000, 10000):
             for o, cl in ((b"[", b"]"), (b"{", b"}"), (b'{"a":', b"}"), (b"[[", b"]]"), (b"--", b"\r\n")):
                 m = mutate.nesting(o, cl, depth, rng.choice([b"", b"1", b'"x"']))
